@@ -409,10 +409,14 @@ def run(ctx: common.Ctx):
                           dict(r['desc'], n_expected=len(r['S']), n_reported=len(r['real_set'])))
             missing = r['S'] - r['real_set']
             if missing:
+                d_ = r['desc']
+                sec_end = kind in ('fusion', 'combo') and d_.get('breakpoint_tx') is not None and any(
+                    s_ + 3 == d_['breakpoint_tx'] for s_ in d_.get('donor_sec', []))
                 ctx.add_violation(
                     f'{len(missing)} peptide(s) of the {kind} definition are missing from the callVariant '
                     f'FASTA, e.g. {sorted(missing)[:3]}', dict(r['desc'], kind='missing-' + kind,
-                                                               missing=sorted(missing)[:20]))
+                                                               missing=sorted(missing)[:20]),
+                    finding_key='sec-codon-ends-at-fusion-breakpoint' if sec_end else None)
     cv_checks.fusion_pairs(ctx, ctx.n(40, 600))
     # binding node-collapsing parameters on indel-rich clusters: nothing may be lost
     cv_checks.collapse_stream(ctx, ctx.n(240, 3000), 'lost')
